@@ -3,6 +3,7 @@ from __future__ import annotations
 
 from .core import outcome, octs
 from .ops_ecss import tm_proj, mk_tc
+from .probe import decode_other
 
 
 def mk_req(r, via="ctor"):
@@ -142,6 +143,7 @@ def op_srv1_rt(a):
             d = S.Service1Tm.from_tm(PusTm.unpack(buf, len(p["stamp"])), up)
         else:
             d = S.Service1Tm.unpack(buf, up)
+        decode_other("srv1", lambda b: S.Service1Tm.unpack(b, S.UnpackParams(7, 1, 1)))
         ec = d.error_code
         if p["fail"] and (ec is None or proj_enum(ec, "code")["code"] != proj_fail(d.failure_notice)["code"]):
             return {"error_code_view": "inconsistent"}
